@@ -119,6 +119,7 @@ pub mod atomic {
                     let before = self.0.load(Ordering::SeqCst);
                     self.0.store(v, Ordering::SeqCst);
                     sim::mm_store(self.addr(), o, before as u64, v as u64);
+                    sim::sp(sim::EV_POST, self.addr());
                 }
                 fn rmw(&self, o: Ordering, f: impl FnOnce(&sa::$std) -> $t) -> $t {
                     if !sim::on() {
@@ -128,6 +129,7 @@ pub mod atomic {
                     let old = f(&self.0);
                     let new = self.0.load(Ordering::SeqCst);
                     sim::mm_rmw(self.addr(), o, old as u64, new as u64);
+                    sim::sp(sim::EV_POST, self.addr());
                     old
                 }
                 pub fn swap(&self, v: $t, o: Ordering) -> $t {
@@ -163,6 +165,7 @@ pub mod atomic {
                     match self.0.compare_exchange(cur, new, Ordering::SeqCst, Ordering::SeqCst) {
                         Ok(old) => {
                             sim::mm_rmw(self.addr(), s, old as u64, new as u64);
+                            sim::sp(sim::EV_POST, self.addr());
                             Ok(old)
                         }
                         Err(now) => {
@@ -235,6 +238,7 @@ pub mod atomic {
             let before = self.0.load(Ordering::SeqCst);
             self.0.store(v, Ordering::SeqCst);
             sim::mm_store(self.addr(), o, before as u64, v as u64);
+            sim::sp(sim::EV_POST, self.addr());
         }
         pub fn swap(&self, v: bool, o: Ordering) -> bool {
             if !sim::on() {
@@ -243,6 +247,7 @@ pub mod atomic {
             sim::sp(EV_RMW, self.addr());
             let old = self.0.swap(v, Ordering::SeqCst);
             sim::mm_rmw(self.addr(), o, old as u64, v as u64);
+            sim::sp(sim::EV_POST, self.addr());
             old
         }
         fn cas(&self, cur: bool, new: bool, s: Ordering, f: Ordering, weak: bool) -> Result<bool, bool> {
@@ -258,6 +263,7 @@ pub mod atomic {
             match self.0.compare_exchange(cur, new, Ordering::SeqCst, Ordering::SeqCst) {
                 Ok(old) => {
                     sim::mm_rmw(self.addr(), s, old as u64, new as u64);
+                    sim::sp(sim::EV_POST, self.addr());
                     Ok(old)
                 }
                 Err(now) => {
@@ -341,6 +347,7 @@ pub mod atomic {
             let before = self.0.load(Ordering::SeqCst);
             self.0.store(v, Ordering::SeqCst);
             sim::mm_store(self.addr(), o, before as usize as u64, v as usize as u64);
+            sim::sp(sim::EV_POST, self.addr());
         }
         pub fn swap(&self, v: *mut T, o: Ordering) -> *mut T {
             if !sim::on() {
@@ -350,6 +357,7 @@ pub mod atomic {
             let old = self.0.swap(v, Ordering::SeqCst);
             sim::mm_rmw(self.addr(), o, old as usize as u64, v as usize as u64);
             sim::note_ptr_swap(v as usize);
+            sim::sp(sim::EV_POST, self.addr());
             old
         }
         pub fn compare_exchange(&self, cur: *mut T, new: *mut T, s: Ordering, f: Ordering) -> Result<*mut T, *mut T> {
